@@ -336,7 +336,7 @@ def fmt(t, depth=0):
     if k == "rec":
         return "rec(_%d)" % t[1]
     if k == "loopvar":
-        return ("loopvar(_%d.%d@bb%d)" % (t[1][0], t[1][1], t[2])) if isinstance(t[1], tuple) else ("loopvar(_%d@bb%d)" % (t[1], t[2]))
+        return ("loopvar(_%d.%s@bb%d)" % (t[1][0], t[1][1], t[2])) if isinstance(t[1], tuple) else ("loopvar(_%d@bb%d)" % (t[1], t[2]))
     if k == "site":
         return "@bb%d" % t[2]
     if k == "fnref":
@@ -799,6 +799,62 @@ class TermBuilder:
         it = next(iter(its))
         return self.loop_init(it[1], it[2])
 
+    _UNSIGNED = ("usize", "u64", "u32", "u16", "u8", "u128")
+
+    def _clamp_idiom(self, preds, alts):
+        """`match v { 0 => 1, other => other }` / `if v == 0 { 1 } else { v }` on an unsigned v is max(v, 1): the join of the two
+        arms of a diamond whose test is `v == 0`, one arm giving the constant 1 and the other v itself"""
+        fn = self.fn
+        for (pc, ac), (px, ax) in ((tuple(zip(preds, alts))), tuple(zip(preds, alts))[::-1]):
+            if not (ac[0] == "const" and type(ac[1]) is int and ac[1] == 1) or ax[0] == "const":
+                continue
+            def up(b):
+                # the switch block above b through a chain of single-predecessor straight-line blocks; returns (switch, entered-at)
+                for _ in range(4):
+                    ps = fn.preds()[b]
+                    if len(ps) != 1:
+                        return None, None
+                    if fn.blocks[ps[0]].term.k == "switch":
+                        return ps[0], b
+                    b = ps[0]
+                return None, None
+            sc, ec = up(pc)
+            sx, ex = up(px)
+            if sc is None or sc != sx or ec == ex:
+                continue
+            t = fn.blocks[sc].term
+            arms = {int(v): b for v, b in t.j["arms"]}
+            other = t.j["otherwise"]
+            d = self.operand(t.discr, sc, len(fn.blocks[sc].stmts))
+            dty = t.j.get("discr_ty")
+            if dty in self._UNSIGNED and d == ax and arms == {0: ec} and other == ex:
+                return simplify(("op", "max", (ax, const(1))))
+            if dty == "bool" and set(arms) == {0} and d[0] == "op" and d[1] in ("Eq", "Ne") and len(d[2]) == 2 and const(0) in d[2] and ax in d[2]:
+                true_blk, false_blk = other, arms[0]
+                zero_blk = true_blk if d[1] == "Eq" else false_blk
+                if zero_blk == ec and {true_blk, false_blk} == {ec, ex} and self._unsigned_term(ax, sc):
+                    return simplify(("op", "max", (ax, const(1))))
+        return None
+
+    def _unsigned_term(self, t, bb):
+        if t[0] == "cast":
+            return t[1] in self._UNSIGNED
+        if t[0] == "param":
+            return self.fn.local_ty(t[1]) in self._UNSIGNED
+        if t[0] == "call" and t[1].endswith("::len"):
+            return True
+        # the compared operand's MIR type
+        blk = self.fn.blocks[bb]
+        d = blk.term.discr
+        if d.place is not None and d.place.is_local():
+            for st in reversed(blk.stmts):
+                if st.k == "assign" and st.place.is_local() and st.place.local == d.place.local and st.rv.k == "binop":
+                    for o in st.rv.ops:
+                        if o.place is not None and o.place.is_local():
+                            return self.fn.local_ty(o.place.local) in self._UNSIGNED
+                    break
+        return False
+
     def _local(self, l, bb, idx, ignore_clobber=False):
         """term of local l just before statement idx of block bb.
         Loop-carried locals are cut at loop heads: inside (or after) a loop that redefines l,
@@ -850,6 +906,8 @@ class TermBuilder:
             for p in preds:
                 alts.append(self._exit_value(l, p, ignore_clobber))
             r = mk_phi(alts) if alts else ("unknown", "no-def _%d" % l)
+            if r[0] == "phi" and len(alts) == 2 and len(preds) == 2 and bb != 0:
+                r = self._clamp_idiom(preds, alts) or r
         finally:
             self._stack.pop()
         if not any(s[0] == "rec" for s in subterms(r)):
@@ -858,14 +916,14 @@ class TermBuilder:
 
     def loop_init(self, l, head):
         """value of loop-carried local l on first entry of the loop"""
-        if isinstance(l, tuple):       # component i of a loop-carried tuple
-            return simplify(("tfield", self.loop_init(l[0], head), l[1]))
+        if isinstance(l, tuple):       # component i of a loop-carried tuple / field of a loop-carried struct
+            return simplify(("tfield" if isinstance(l[1], int) else "field", self.loop_init(l[0], head), l[1]))
         return self._entry_value(l, head, False, through_head=True)
 
     def loop_update(self, l, head):
         """value of l flowing around the back edge(s), in terms of ("loopvar", l, head)"""
         if isinstance(l, tuple):
-            return _resimplify(("tfield", self.loop_update(l[0], head), l[1]))
+            return _resimplify(("tfield" if isinstance(l[1], int) else "field", self.loop_update(l[0], head), l[1]))
         body = self._loops()[head]
         alts = [self._exit_value(l, p, False) for p in self.fn.preds()[head] if p in body]
         return mk_phi(alts) if alts else ("unknown", "no-backedge")
@@ -1220,6 +1278,10 @@ class TermBuilder:
             return args[0][2][0]
         if name in UNWRAPS and args and args[0][0] == "adt" and args[0][2] in ("Some", "Ok") and len(args[0][3]) == 1:
             return args[0][3][0][1]
+        if name == "unwrap_or" and len(args) == 2 and args[0][0] == "adt" and args[0][2] in ("Some", "Ok") and len(args[0][3]) == 1:
+            return args[0][3][0][1]
+        if name == "unwrap_or" and len(args) == 2 and args[0][0] == "adt" and args[0][2] == "None":
+            return args[1]
         # float / int intrinsics as operators
         if name in FLOAT_METHODS and (decl.startswith("std::f64::") or decl.startswith("std::f32::") or decl.startswith("core::f64") or decl.startswith("f64::")):
             return simplify(("op", name, tuple(args)))
@@ -1273,6 +1335,8 @@ class TermBuilder:
             if args[0][0] == "loopvar":
                 args = [self.loop_init(args[0][1], args[0][2])]
             return ("adt", "std::option::Option", "Some", (("0", elem_of(args[0])),))
+        if decl == "std::collections::BTreeSet::first" and len(args) == 1:
+            return ("adt", "std::option::Option", "Some", (("0", elem_of(args[0])),))     # the smallest element == iter().next()
         # first / last element of a slice
         if decl in ("[T]::first", "core::slice::<impl [T]>::first", "std::slice::<impl [T]>::first") and len(args) == 1:
             return ("adt", "std::option::Option", "Some", (("0", ("index", args[0], const(0))),))
